@@ -441,6 +441,7 @@ def _run(q, T, B):
         if stop:
             consumed = nr
             break
+    calls = consumed if stop else len(T) + 1   # get_record() calls: the stopping record, or all records plus the final None
     warnings = []
     w = field_count_warning(T[:consumed])
     if w is not None:
@@ -450,7 +451,7 @@ def _run(q, T, B):
         if wb is not None:
             warnings.append(wb)
     if not buffered:
-        return ('ok', streamed, header, warnings, consumed)
+        return ('ok', streamed, header, warnings, calls)
     if agg:
         keys = sorted([g[0] for g in groups]) if q.group is not None else [g[0] for g in groups]
         rows = []
@@ -488,7 +489,7 @@ def _run(q, T, B):
             rows = [[cnt[i]] + ded[i] for i in range(len(ded))]
     if q.top is not None:
         rows = rows[:q.top]
-    return ('ok', rows, header, warnings, consumed)
+    return ('ok', rows, header, warnings, calls)
 
 
 def _run_update(q, T, B, bkeys, header):
@@ -531,4 +532,4 @@ def _run_update(q, T, B, bkeys, header):
         wb = field_count_warning(B)
         if wb is not None:
             warnings.append(wb)
-    return ('ok', out, header, warnings, len(T))
+    return ('ok', out, header, warnings, len(T) + 1)
